@@ -1,15 +1,24 @@
 package main
 
 import (
+	"encoding/json"
 	"fmt"
 	"math/rand"
 	"os"
+	"strings"
 	"time"
 
 	"github.com/uhppoted/uhppote-core/types"
 )
 
 func init() { commands["c13"] = runC13 }
+
+// documents a variable has been used for before (written by the library itself)
+var usedProfileDoc, _ = json.Marshal(types.TimeProfile{ID: 29, LinkedProfileID: 71, From: types.ToDate(2021, 4, 1), To: types.ToDate(2021, 12, 29),
+	Weekdays: types.Weekdays{time.Monday: true, time.Thursday: true}, Segments: types.Segments{1: types.Segment{Start: types.NewHHmm(8, 30), End: types.NewHHmm(9, 45)}}})
+var nextTaskDoc, _ = json.Marshal(types.Task{Task: types.TaskType(5), Door: 3, From: types.ToDate(2023, 1, 31), Start: types.NewHHmm(17, 5)})
+var usedTaskDoc, _ = json.Marshal(types.Task{Task: types.TaskType(3), Door: 2, From: types.ToDate(2021, 4, 1), To: types.ToDate(2021, 12, 29),
+	Weekdays: types.Weekdays{time.Monday: true}, Start: types.NewHHmm(8, 30), Cards: 7})
 
 // gapDays finds, for the process-local zone, the calendar days whose local midnight is removed by a
 // zone transition between 1900 and 2100 (and the days that are skipped entirely).
@@ -192,6 +201,31 @@ func runC13(o *opts) (*summary, error) {
 			v := types.ToDate(y, time.Month(m), dd)
 			b, _ := v.MarshalUT0311L0x()
 			return projDate(v), b
+		})
+		// dates inside JSON documents decoded through ONE variable that has been used before (profiles / tasks / cards read in a
+		// loop): the date reported is the one in THIS document (what a document WITHOUT a date leaves in a used variable is
+		// outside the property: C13 speaks of dates parsed from text, C14 of fresh zero-valued variables)
+		emit("TimeProfileJSONReusedVariable", "date", class, civil, ex, func() (M, []byte) {
+			var tp types.TimeProfile
+			if err := json.Unmarshal(usedProfileDoc, &tp); err != nil {
+				return M{"t": "err", "doc": 1}, nil
+			}
+			if err := json.Unmarshal([]byte(`{"id":30,"start-date":"2023-01-31","end-date":"`+text+`"}`), &tp); err != nil {
+				return M{"t": "err", "doc": 2}, nil
+			}
+			b, _ := tp.To.MarshalUT0311L0x()
+			return projDate(tp.To), b
+		})
+		emit("TaskJSONReusedVariable", "date", class, civil, ex, func() (M, []byte) {
+			var tk types.Task
+			if err := json.Unmarshal(usedTaskDoc, &tk); err != nil {
+				return M{"t": "err", "doc": 1}, nil
+			}
+			if err := json.Unmarshal([]byte(strings.Replace(string(nextTaskDoc), "2023-01-31", text, 1)), &tk); err != nil {
+				return M{"t": "err", "doc": 2}, nil
+			}
+			b, _ := tk.From.MarshalUT0311L0x()
+			return projDate(tk.From), b
 		})
 		emit("ParseDate", "date", class, civil, ex, func() (M, []byte) {
 			v, err := types.ParseDate(text)
